@@ -157,6 +157,19 @@ def write_results(network, num_periods, periods_to_print=None, columns_to_print=
 		cols_to_print.remove('costs')
 		cols_to_print.extend(['HC', 'SC', 'TC'])
 
+	def _rm_dict_for_printing(rm_dict, node):
+		# If suppress_dummy_products, key the raw materials by predecessor indices instead of (dummy) product indices.
+		# (Used for both the rows and the header, so that values and labels are in the same order.)
+		if not suppress_dummy_products:
+			return rm_dict
+		temp_dict = {}
+		for k, v in rm_dict.items():
+			if network.products_by_index[k].is_dummy:
+				temp_dict[node.raw_material_suppliers_by_raw_material(raw_material=k, return_indices=True)[0]] = v
+			else:
+				temp_dict[k] = v
+		return temp_dict
+
 	# Period-by-period rows.
 	for t in pers_to_print:
 		temp = [t]
@@ -181,7 +194,7 @@ def write_results(network, num_periods, periods_to_print=None, columns_to_print=
 			if 'IS'		in cols_to_print: temp += sort_nested_dict_by_keys(node.state_vars[t].inbound_shipment) 
 			if 'ISPL'	in cols_to_print: temp += ISPL
 			if 'IDI'	in cols_to_print: temp += sort_nested_dict_by_keys(node.state_vars[t].inbound_disrupted_items) 
-			if 'RM'		in cols_to_print: temp += sort_dict_by_keys(node.state_vars[t].raw_material_inventory) 
+			if 'RM'		in cols_to_print: temp += sort_dict_by_keys(_rm_dict_for_printing(node.state_vars[t].raw_material_inventory, node)) 
 			if 'PFG'	in cols_to_print: temp += sort_dict_by_keys(node.state_vars[t].pending_finished_goods) 
 			if 'OS'		in cols_to_print: temp += sort_nested_dict_by_keys(node.state_vars[t].outbound_shipment) 
 			if 'DMFS'	in cols_to_print: temp += sort_dict_by_keys(node.state_vars[t].demand_met_from_stock)
@@ -213,17 +226,7 @@ def write_results(network, num_periods, periods_to_print=None, columns_to_print=
 		if 'ISPL' 	in cols_to_print: headers += _nested_dict_to_header_list(node.state_vars[0].inbound_shipment_pipeline, "ISPL", omit_negative_keys=suppress_dummy_products)
 		if 'IDI' 	in cols_to_print: headers += _nested_dict_to_header_list(node.state_vars[0].inbound_disrupted_items, "IDI", omit_negative_keys=suppress_dummy_products)
 		if 'RM' 	in cols_to_print: 
-			# If suppress_dummy_products, use predecessor indices instead of product indices.
-			if suppress_dummy_products:
-				temp_dict = {}
-				for k, v in node.state_vars[0].raw_material_inventory.items():
-					if network.products_by_index[k].is_dummy: 
-						temp_dict[node.raw_material_suppliers_by_raw_material(raw_material=k, return_indices=True)[0]] = v
-					else:
-						temp_dict[k] = v
-				# temp_dict = {node.raw_material_suppliers_by_raw_material(raw_material=k, return_indices=True)[0]: v for k, v in node.state_vars[0].raw_material_inventory.items()}
-			else:
-				temp_dict = node.state_vars[0].raw_material_inventory
+			temp_dict = _rm_dict_for_printing(node.state_vars[0].raw_material_inventory, node)
 			headers += _dict_to_header_list(temp_dict, "RM")
 		if 'PFG' 	in cols_to_print: headers += _dict_to_header_list(node.state_vars[0].pending_finished_goods, "PFG", omit_negative_keys=suppress_dummy_products)
 		if 'OS' 	in cols_to_print: headers += _nested_dict_to_header_list(node.state_vars[0].outbound_shipment, "OS", omit_negative_keys=suppress_dummy_products)
